@@ -19,7 +19,7 @@ func buildEngineB() (string, error) {
 	bin := filepath.Join(scratch, "bin")
 	os.MkdirAll(bin, 0755)
 	cmd := exec.Command(goTool(), "build", "-tags", "verif", "-o", filepath.Join(bin, "git-lfs"), ".")
-	cmd.Dir = "/repo"
+	cmd.Dir = repoDir
 	out, err := cmd.CombinedOutput()
 	if err != nil {
 		return "", fmt.Errorf("%v\n%s", err, out)
@@ -129,6 +129,22 @@ func runEngineB(p *plan, tier string, base uint64, workers int, scale float64, r
 			if !printedKnown[kf] {
 				printedKnown[kf] = true
 				fmt.Printf("KNOWN-FINDING: property=%s %s\n", p.ID, kf)
+				// maintenance aid: (re)generate the committed replay of a
+				// known finding after the scenario generator changed
+				if os.Getenv("VERIF_SAVE_KNOWN") != "" {
+					tape := v.Tape
+					if mt := minimiseB(wl, bin, v); mt != nil {
+						tape = mt
+					}
+					vr := engb.RunOne(wl, sim.NewReplayTape(v.Seed, tape), filepath.Join(scratch, "verify"), bin, true, nil)
+					if vr.Harness == "" && vr.Class == v.Class {
+						rp := &sim.Replay{Engine: "B", Property: p.ID, Workload: wl, Seed: v.Seed, Tape: tape, Class: v.Class, Detail: vr.Detail, Minimised: true, Needs: strings.Join(vr.Needs, ","), TraceHash: fmt.Sprintf("%x", vr.TraceHash)}
+						path := filepath.Join(outDir, "replays", fmt.Sprintf("%s-known-%s.json", p.ID, v.Class))
+						os.MkdirAll(filepath.Dir(path), 0755)
+						rp.Write(path)
+						fmt.Printf("  known-finding replay written to %s\n", path)
+					}
+				}
 			}
 			continue
 		}
@@ -154,8 +170,8 @@ func runEngineB(p *plan, tier string, base uint64, workers int, scale float64, r
 		if b, err := json.Marshal(vr.Sample); err == nil {
 			rp.Extra = map[string]string{"history": string(b)}
 		}
-		os.MkdirAll(filepath.Join(verifDir, "replays"), 0755)
-		path := filepath.Join(verifDir, "replays", fmt.Sprintf("%s-%s-%s-%d.json", p.ID, strings.ReplaceAll(wl, ".", "_"), v.Class, v.Seed))
+		os.MkdirAll(filepath.Join(outDir, "replays"), 0755)
+		path := filepath.Join(outDir, "replays", fmt.Sprintf("%s-%s-%s-%d.json", p.ID, strings.ReplaceAll(wl, ".", "_"), v.Class, v.Seed))
 		rp.Write(path)
 		fmt.Printf("VIOLATION property=%s replay=%s\n  class=%s workload=%s seed=%d tape_len=%d minimised=%v faults=%s\n  %s\n", p.ID, path, v.Class, wl, v.Seed, len(tape), isMin, rp.Needs, vr.Detail)
 		reported = append(reported, path)
@@ -310,6 +326,6 @@ func writeEvidenceB(p *plan, tier string, base uint64, sum *bSummary, perStage m
 		"violations": len(reported), "assumptions": p.Assume, "coverage": cov,
 	}
 	b, _ := json.MarshalIndent(ev, "", " ")
-	os.MkdirAll(filepath.Join(verifDir, "evidence"), 0755)
-	os.WriteFile(filepath.Join(verifDir, "evidence", evName(p)+".json"), b, 0644)
+	os.MkdirAll(filepath.Join(outDir, "evidence"), 0755)
+	os.WriteFile(filepath.Join(outDir, "evidence", evName(p)+".json"), b, 0644)
 }
